@@ -310,11 +310,13 @@ def obligations(tier):
             continue  # does not read input: handle_message() sends the ClientHello and returns
         obs.append(Ob("C11.dispatch.%s" % st.name.lower(), dispatch(st.name), shims, [P + "Context.handle_message", P + "Context._handle_reassembled_message"], bounds="message type: every value 0..255 (symbolic); message body empty (handlers replaced by recorders)", outside="CLIENT_HANDSHAKE_START consumes no input", budget_s=120))
     flight_bounds = "adversary flight: every sequence of <= %d messages over the menu %s, each MACed/signed over the transcript actually sent; cipher suite TLS_AES_128_GCM_SHA256, X25519"
+    nc, ns = (8, 7) if T else (6, 5)
+    menu_c = MENU_ORDER + ([("CERT", "wrongname"), ("CV", "wrongname"), ("CERT", "untrusted"), ("CV", "untrusted")] if T else [])
     for psk in ("none", "selected", "offered"):
         for cc in (False, True):
             if cc and psk != "none":
                 continue
-            obs.append(Ob("C11.flight.client.psk_%s%s" % (psk, ".clientcert" if cc else ""), client_flight(MENU_ORDER, psk=psk, max_len=6, client_cert=cc), shims, ENCODED, bounds=flight_bounds % (6, [k for k, _ in MENU_ORDER]) + "; PSK %s" % psk, setup=tm.ideal_crypto, stubs=tm.STUBS, budget_s=900 if T else 420, max_decisions=4000))
+            obs.append(Ob("C11.flight.client.psk_%s%s" % (psk, ".clientcert" if cc else ""), client_flight(menu_c, psk=psk, max_len=nc, client_cert=cc), shims, ENCODED, bounds=flight_bounds % (nc, [k + ("(%s)" % l if l else "") for k, l in menu_c]) + "; PSK %s" % psk, setup=tm.ideal_crypto, stubs=tm.STUBS, budget_s=900 if T else 420, max_decisions=4000))
     for rq in (False, True):
-        obs.append(Ob("C11.flight.server.%s" % ("request_cert" if rq else "no_cert"), server_flight(MENU_CLIENT, rq, max_len=5), shims, ENCODED, bounds=flight_bounds % (5, [k for k, _ in MENU_CLIENT]) + "; client certificate %srequested" % ("" if rq else "not "), setup=tm.ideal_crypto, stubs=tm.STUBS, budget_s=900 if T else 420, max_decisions=4000))
+        obs.append(Ob("C11.flight.server.%s" % ("request_cert" if rq else "no_cert"), server_flight(MENU_CLIENT, rq, max_len=ns), shims, ENCODED, bounds=flight_bounds % (ns, [k for k, _ in MENU_CLIENT]) + "; client certificate %srequested" % ("" if rq else "not "), setup=tm.ideal_crypto, stubs=tm.STUBS, budget_s=900 if T else 420, max_decisions=4000))
     return obs
